@@ -209,8 +209,12 @@ int32_t jls_wr_signal_def(struct jls_wr_s * self, const struct jls_signal_def_s 
     // copy signal def
     info->signal_def = *signal;
     struct jls_signal_def_s * def = &info->signal_def;
-    jls_buf_string_save(buf, signal->name, (char **) &def->name);
-    jls_buf_string_save(buf, signal->units, (char **) &def->units);
+    if (NULL != signal->name) {  // absent strings are stored as empty
+        jls_buf_string_save(buf, signal->name, (char **) &def->name);
+    }
+    if (NULL != signal->units) {
+        jls_buf_string_save(buf, signal->units, (char **) &def->units);
+    }
     ROE(jls_core_signal_def_validate(def));
     ROE(jls_core_signal_def_align(def));
 
